@@ -141,7 +141,9 @@ inductive TPc where
   | run                         -- in `start_fn`, about to call the closure
   | write (v : Nat)             -- closure returned v: `*tsm.value_mut() = Some(v)`
   | pRead                       -- panic handler: `tls.read()`
-  | cas | setTid | freeTsm | freeTls | freeBox | munmap | exit
+  | cas | setTid
+  | dropVal                     -- epilogue, CAS lost: `drop_in_place(tsm.value_mut())` — the destructor of the unread result (user code) runs here
+  | freeTsm | freeTls | freeBox | munmap | exit
   | dead                        -- exit system call issued
   deriving Repr, DecidableEq
 
@@ -153,6 +155,8 @@ inductive Ev where
   | hReadSlot | hFreeTsm | hCas (ok : Bool)
   | tRet (v : Nat) | tPanic | tWrite | tPanicRead | tCas (ok : Bool) | tSetTid | tFreeTsm | tFreeTls
   | tFreeBox | tMunmap | tExit
+  | tDropVal                    -- the destructor of the unread result runs on T (epilogue, CAS lost) and returns
+  | tDropPanic                  -- ... and panics: `#[panic_handler]` runs on T from this point of the epilogue
   | kExit
   deriving Repr, DecidableEq
 
@@ -179,7 +183,7 @@ structure Cfg where
 structure Inst where
   h : HPc
   t : TPc
-  panicked : Bool
+  panicked : Bool           -- T has entered the panic handler (the closure panicked, or the destructor of its unread result did)
   -- contents of the shared block
   flag : Bool               -- `sync`
   word : Nat                -- futex word
@@ -204,13 +208,14 @@ structure Inst where
   hsees : Bool                      -- H has synchronised with T's exit
   raced : Bool                      -- H read the slot / freed the block without having synchronised
   joinRes : Option (Option Nat)     -- what `join` returned
+  dpanic : Bool                     -- the panic came from the destructor of the unread result, in T's epilogue
   deriving Repr, DecidableEq
 
 def Inst.init : Inst :=
   { h := .fresh, t := .notStarted, panicked := false, flag := false, word := 0, slot := none, ctid := false,
     kdone := false, winner := none, tsm := .unalloc, tls := .unalloc, stack := .unalloc, box := .unalloc, val := .unalloc,
     tsmFrees := 0, tlsFrees := 0, stackFrees := 0, boxFrees := 0, bad := false, runs := 0, ret := none,
-    hsees := false, raced := false, joinRes := none }
+    hsees := false, raced := false, joinRes := none, dpanic := false }
 
 def notLive (r : RSt) : Bool := r != .live
 
@@ -235,6 +240,10 @@ def retTo (c : Cfg) (j : Bool) : HPc := if c.recheck then .wLoad j else afterWai
 
 /-- where T goes after it is done with the flag (won the CAS, or lost it and freed the block) -/
 def afterFlag (panicked : Bool) : TPc := if panicked then .munmap else .freeTls
+
+/-- where T goes once its clear-tid address is reset (or at once, when the code does not reset it): the epilogue
+drops the unread result before it frees the block, the panic handler frees at once -/
+def afterTid (c : Cfg) (panicked : Bool) : TPc := if panicked then .freeTsm else if c.dropValT then .dropVal else .freeTsm
 
 /-- one step of one instance; `none` = this party of the model would not do that now -/
 def stepI (c : Cfg) (x : Inst) (e : Ev) : Option Inst :=
@@ -341,16 +350,20 @@ def stepI (c : Cfg) (x : Inst) (e : Ev) : Option Inst :=
           else none
         else
           if x.flag = true then
-            some (touchTsm (touchStack { x with t := if (if x.panicked then c.setTidPanic else c.setTidRet) then .setTid else .freeTsm }))
+            some (touchTsm (touchStack { x with t := if (if x.panicked then c.setTidPanic else c.setTidRet) then .setTid else afterTid c x.panicked }))
           else none
       else none
   | .tSetTid =>         -- set_tid_address(0)
-      if x.t = .setTid then some (touchStack { x with t := .freeTsm, ctid := false }) else none
-  | .tFreeTsm =>
-      if x.t = .freeTsm then
-        let y := touchTsm (touchStack { x with t := afterFlag x.panicked })
-        some (freeTsm (if c.dropValT then takeVal y else y))
+      if x.t = .setTid then some (touchStack { x with t := afterTid c x.panicked, ctid := false }) else none
+  | .tDropVal =>        -- core::ptr::drop_in_place(tsm.value_mut::<T>()): the value's destructor runs (in the block) and returns
+      if x.t = .dropVal then some (takeVal (touchTsm (touchStack { x with t := .freeTsm }))) else none
+  | .tDropPanic =>      -- the destructor panics: on_panic starts here, with whatever the epilogue has (not) released so far
+      if x.t = .dropVal then
+        if x.slot = none then none
+        else some (takeVal (touchTsm (touchStack { x with t := .pRead, panicked := true, dpanic := true })))
       else none
+  | .tFreeTsm =>        -- tsm.dealloc()
+      if x.t = .freeTsm then some (freeTsm (touchTsm (touchStack { x with t := afterFlag x.panicked }))) else none
   | .tFreeBox =>        -- the Box<F> allocation is released when `start_fn`'s call returns
       if x.t = .freeBox then some (freeBox (touchStack { x with t := .munmap })) else none
   | .tMunmap =>         -- asm: munmap(own stack); nothing below touches the stack
